@@ -498,6 +498,34 @@ func c15Run(c *core.Ctx) {
 			}
 		}
 	}
+	// rich rules: k filters with m components each (long component lists, large rules), alone and between small rules
+	for k := 1; k <= 15; k++ {
+		if !mine() {
+			continue
+		}
+		for _, m := range []int{3, 5, 9, 18} {
+			var fs []qFilter
+			for f := 0; f < k; f++ {
+				var cs []qComp
+				for j := 0; j < m; j++ {
+					t := qCompTypes[(f+j)%len(qCompTypes)]
+					vs := qCompValues(t)
+					cs = append(cs, qComp{t, vs[(f+j)%len(vs)]})
+				}
+				fs = append(fs, qFilter{ID: uint8(f), Dir: uint8(1 + f%3), Comps: cs})
+			}
+			rich := qRule{ID: 7, Op: 1, DQR: true, Filters: fs, Precedence: 3, QFI: 4}
+			small := qRule{ID: 1, Op: 1, Filters: []qFilter{simple}, Precedence: 1, QFI: 1}
+			del := qRule{ID: 2, Op: 5, Filters: []qFilter{{ID: 1}, {ID: 2}}, Precedence: 1, QFI: 1}
+			rules(rich)
+			rules(small, rich, small)
+			rules(rich, del, rich)
+			half := rich
+			half.Filters = fs[:(k+1)/2]
+			half.ID = 8
+			rules(half, rich)
+		}
+	}
 	// flow descriptions: operation x QFI x parameter counts 0..63 of one kind; ordered pairs / triples over the 7 kinds
 	for op := uint8(1); op <= 3; op++ {
 		if !mine() {
@@ -657,7 +685,7 @@ func init() {
 			if tier == "thorough" {
 				l = "5"
 			}
-			return "totality: every byte string of length <= " + l + " over a 32-value branch-constant alphabet (component types, parameter ids, small lengths, boundary octets) into QoSRules.UnmarshalBinary, QoSFlowDescs.UnmarshalBinary and the component-list parser, plus the <=2-mutation neighbourhood (every truncation, every single-octet replacement by all 256 values, deletions, insertions, pairs) of valid encodings containing every component type and parameter kind; round trip: rule lists over operations 1..6 x DQR x segregation x QFI {0,1,63} x precedence {0,255} x 0..15 filters, filters with 0..2 components over all ordered pairs of the 18 component types with value patterns, description lists over operations 1..3 x 0..63 parameters of each kind and all ordered pairs/triples of the 7 kinds. Oracle: no panic; unknown identifiers are errors; serialised bytes equal a reference encoder written from figures 9.11.4.12.x / 9.11.4.13.x; parse(serialise(v)) = v."
+			return "totality: every byte string of length <= " + l + " over a 32-value branch-constant alphabet (component types, parameter ids, small lengths, boundary octets) into QoSRules.UnmarshalBinary, QoSFlowDescs.UnmarshalBinary and the component-list parser, plus the <=2-mutation neighbourhood (every truncation, every single-octet replacement by all 256 values, deletions, insertions, pairs) of valid encodings containing every component type and parameter kind; round trip: rule lists over operations 1..6 x DQR x segregation x QFI {0,1,63} x precedence {0,255} x 0..15 filters, filters with 0..2 components over all ordered pairs of the 18 component types with value patterns, rich rules with 1..15 filters of 3/5/9/18 components alone and next to small rules, description lists over operations 1..3 x 0..63 parameters of each kind and all ordered pairs/triples of the 7 kinds. Oracle: no panic; unknown identifiers are errors; serialised bytes equal a reference encoder written from figures 9.11.4.12.x / 9.11.4.13.x; parse(serialise(v)) = v."
 		},
 		Assumptions: []string{
 			"flow labels are generated below 2^19 (the serialiser rejects larger values although the field has 20 bits; the round trip presupposes a successful serialisation)",
